@@ -650,3 +650,62 @@ def run(ctx):
 
 # evidence: how the model is tied to the source on every run (as built, supersedes the value above)
 TIE = 'translator (array one-liners -> Gen/ImSimple, calc_cav_dp -> Gen/ImCavDp, constants -> Gen/Consts; Props/C09Sem, C09Gen, C09GenCav) + correspondence'
+
+
+# ---- round-5 lesson: measures follow the object's CURRENT record after every mutator, also the in-place ones --------------------------------
+
+def extras_hist(ctx):
+    import eqsig
+    from eqsig import im
+    rng = ctx.rng
+    MUT = ['remove_rolling_average(acceleration)', 'remove_rolling_average(velocity)', 'rebase_displacement', 'running_average', 'add_constant', 'reset_values',
+           'set_zero_residual_velocity', 'set_zero_residual_displacement_and_velocity(timezone)']
+    for it in range(16 if ctx.tier == 'quick' else 160):
+        n = rng.randint(60, 200)
+        dt = rng.choice([0.01, 0.02])
+        a = gen.noise_record(rng, n)
+        o = eqsig.AccSignal(a.copy(), dt)
+        # fill the caches the measures read (velocity, displacement, peaks), by a different route each time
+        for nm in rng.sample(['velocity', 'pgv', 'displacement', 'pgd', 'pga'], 3):
+            getattr(o, nm)
+        call_impl(getattr(im, rng.choice(['calc_isv', 'calc_unit_kinetic_energy', 'calc_integral_of_abs_velocity', 'calc_cav'])), o)
+        op = MUT[it % len(MUT)]
+        r = None
+        if op == 'remove_rolling_average(acceleration)':
+            r = call_impl(o.remove_rolling_average, mtype='acceleration', freq_window=rng.choice([5, 10]))
+        elif op == 'remove_rolling_average(velocity)':
+            r = call_impl(o.remove_rolling_average, mtype='velocity', freq_window=5)
+        elif op == 'rebase_displacement':
+            r = call_impl(o.rebase_displacement)
+        elif op == 'running_average':
+            r = call_impl(o.running_average, 3)
+        elif op == 'add_constant':
+            r = call_impl(o.add_constant, 0.5)
+        elif op == 'reset_values':
+            r = call_impl(o.reset_values, gen.noise_record(rng, n))
+        elif op == 'set_zero_residual_velocity':
+            r = call_impl(o.set_zero_residual_velocity)
+        else:
+            r = call_impl(o.set_zero_residual_displacement_and_velocity, timezone=(dt * rng.randint(1, n // 3), None))
+        if r[0] != 'ok':
+            ctx.hist('measure-history/' + op + ' raised ' + r[1])
+            continue
+        f = eqsig.AccSignal(np.array(o.values, copy=True), dt)
+        bad = []
+        for fname, _h in SERIES:
+            g, w = call_impl(getattr(im, fname), o), call_impl(getattr(im, fname), f)
+            if not (g[0] == w[0] and (g[0] != 'ok' or np.array_equal(np.asarray(g[1]), np.asarray(w[1])))):
+                bad.append(fname)
+        ctx.hist('measure-history/' + op)
+        ctx.count_case(('mhist', a.tobytes(), op), True)
+        ctx.oracle('C09 every measure of an object is that of its CURRENT record after a mutator (in-place ones included), whatever was cached before', not bad,
+                   {'a': a, 'dt': dt, 'mutator': op}, detail={'measures that differ from a fresh object with the same values': bad})
+
+
+_run_main_h = run
+
+
+def run(ctx):
+    _run_main_h(ctx)
+    extras_hist(ctx)
+    ctx.flush()
